@@ -226,7 +226,8 @@ loop:
 		}
 		return ftoken(f), len(s)
 	}
-	n, err := strconv.ParseInt(s, 0, 64)
+	// decimal: SQLite has no octal or binary literals, `010` is ten
+	n, err := strconv.ParseInt(s, 10, 64)
 	if err != nil {
 		return token{}, -1
 	}
